@@ -42,6 +42,7 @@ const (
 	KGC             = "GC"
 	KMisuse         = "Misuse"
 	KMatrix         = "Matrix"
+	KBigBatch       = "BigBatch"
 	KCodec          = "Codec"
 	KQMisuse        = "QMisuse"
 	KRegistry       = "Registry"
